@@ -16,7 +16,13 @@ classifies what happened (``observe``):
                 need more than MAX_MESH_CALLS steps                 (class 4)
   nonfinite     accepted and swept, but nan/inf temperatures        (class 5)
 
-Part A: valid generated inputs (and valid option variants)  -> must be `ran`.
+Part A: valid generated inputs (workloads.single_assembly / core_problem) and
+        one valid option variant per case -> must be `ran`. DASSH's own
+        error exits on such inputs (material temperature left its range or
+        went non-positive during the sweep, pin-model iteration not
+        converged, a clean rejection by the reader) are tagged
+        `A_dassh_error_exit:<stage>` and are neither a pass nor a violation;
+        meshes beyond the sweep cap are set up but not swept (tagged).
 Part B: single-fault mutants of valid generated inputs. A mutant whose fault
         is one of the invalid classes named by the property must be
         `rejected` (expect = 'reject'); any other hostile mutant must be
@@ -24,8 +30,10 @@ Part B: single-fault mutants of valid generated inputs. A mutant whose fault
         problem). The unmutated base of every mutant is run first and must be
         `ran`, otherwise the mutant says nothing and is not counted.
 
-Violations are keyed by (input key, fault class, outcome[, where]) - never by
-seed.
+Violations are keyed by (input key, fault class, mutator, outcome[, where]) -
+never by seed. `classify` maps a key to the finding id of its mechanism
+(FINDINGS below); `extra_coverage` writes the whole outcome table of the
+catalogue into the evidence file.
 """
 import os
 import copy
@@ -2034,54 +2042,58 @@ FINDINGS = {
     'F4': 'required axial step floors to 0 (np.floor(min_dz*1e6)/1e6) or a '
           'zero / sub-micron axial_mesh_size is taken over: '
           'Reactor._setup_zpts never advances (or needs > 2e5 steps)',
-    'F12': 'spacer-grid correlation with default solidity in an SI input: '
+    'F12c': 'spacer-grid correlation with default solidity in an SI input: '
            'ValueError "Cannot convert unit to itself" in check_spacergrid',
-    'F21': 'wire_pitch = 0 with wire_diameter > 0 accepted: '
+    'F1801': 'wire_pitch = 0 with wire_diameter > 0 accepted: '
            'ZeroDivisionError in the friction / flow-split correlations',
-    'F22': 'SpacerGrid loss_coeff = 0 is treated as "not given": '
+    'F1802': 'SpacerGrid loss_coeff = 0 is treated as "not given": '
            'AssertionError in RoddedRegion._setup_spacer_grid',
-    'F23': 'nan / inf literals pass ConfigObj validation, the Assignment '
+    'F1803': 'nan / inf literals pass ConfigObj validation, the Assignment '
            'parser and the power CSV reader',
-    'F24': 'unreadable power CSV (non-numeric token, ragged rows, header, '
+    'F1804': 'unreadable power CSV (non-numeric token, ragged rows, header, '
            'empty file, unknown component id): numpy/Python exception '
            'escapes power._from_file',
-    'F25': 'duplicated item index in the power CSV: reshape ValueError '
+    'F1805': 'duplicated item index in the power CSV: reshape ValueError '
            '(one axial cell) or silently accepted (several cells)',
-    'F26': 'power profile longer than Core/length accepted: the length it '
-           'is compared with is derived from the profile itself',
-    'F27': 'power CSV axial cell with z_lo > z_hi accepted',
-    'F28': 'AxialRegion with zero height accepted: the height loop skips '
+    'F51': 'power profile longer than Core/length accepted: the length it '
+           'is compared with (Reactor.core_length) is the largest of all '
+           'axial boundaries, the profile\'s own included',
+    'F1806': 'power CSV axial cell with z_lo > z_hi accepted',
+    'F1807': 'AxialRegion with zero height accepted: the height loop skips '
            'the first (sorted) region',
-    'F29': 'AxialRegion overlap across the pin bundle accepted (sign-blind '
+    'F1808': 'AxialRegion overlap across the pin bundle accepted (sign-blind '
            'count in _check_reg_bnds); no bundle left: IndexError',
-    'F30': 'nested ducts that touch or overlap (bypass gap <= 0) accepted',
-    'F31': 'unknown AxialRegion model name: NotImplementedError traceback '
+    'F1809': 'nested ducts that touch or overlap (bypass gap <= 0) accepted',
+    'F1810': 'unknown AxialRegion model name: NotImplementedError traceback '
            'instead of an input error',
-    'F32': 'template key bypass_gap_loss_coeff: every value raises '
+    'F1811': 'template key bypass_gap_loss_coeff: every value raises '
            'NotImplementedError at set-up',
-    'F33': 'dummy_pin input: KeyError "n_ring" in check_dummy_pin',
-    'F34': 'spacer-grid correlation with a MIT/NOV/SE2 flow split: '
-           'TypeError (unexpected keyword "grid")',
-    'F35': 'bypass_fraction = 1 accepted: ZeroDivisionError in '
+    'F1812': 'dummy_pin input: KeyError "n_ring" in check_dummy_pin',
+    'F1813': 'spacer-grid correlation with a MIT/NOV/SE2 flow split: '
+             'TypeError (unexpected keyword "grid"); repaired upstream in '
+             'd92e2aa, rule kept for older trees',
+    'F1814': 'bypass_fraction = 1 accepted: ZeroDivisionError in '
            'Reactor._calculate_total_fr',
-    'F36': 'bypass_gap_flow_fraction has no bounds: >= 1 hangs set-up or '
+    'F1815': 'bypass_gap_flow_fraction has no bounds: >= 1 hangs set-up or '
            'gives nan temperatures',
-    'F37': 'outlet temperature <= inlet (or a temperature-rise condition '
+    'F1816': 'outlet temperature <= inlet (or a temperature-rise condition '
            'with zero power): ValueError / TypeError / no progress',
-    'F38': 'conv_approx with an unrodded region limiting the step of a pin '
+    'F1817': 'conv_approx with an unrodded region limiting the step of a pin '
            'assembly: TypeError ("int" not subscriptable) - valid inputs',
-    'F39': 'non-numeric token in an Assignment line: ValueError traceback',
-    'F40': 'user coolant with zero thermal conductivity accepted: '
+    'F1818': 'non-numeric token in an Assignment line: ValueError traceback',
+    'F1819': 'user coolant with zero thermal conductivity accepted: '
            'ZeroDivisionError (Prandtl number)',
-    'F41': 'assembly without rows in the user power CSV: KeyError "dif3d"',
-    'F42': 'pin_pitch == pin_diameter accepted: nan step requirement',
-    'F43': 'AxialRegion vf_coolant = 0 accepted: no progress / nan / '
+    'F1820': 'assembly without rows in the user power CSV: KeyError "dif3d"',
+    'F1821': 'pin_pitch == pin_diameter accepted: nan step requirement',
+    'F1822': 'AxialRegion vf_coolant = 0 accepted: no progress / nan / '
            'TypeError',
 }
 
 # Known mechanisms. Each rule is (finding id, predicate on the violation key).
 # Rules are tried in order; a violation that matches none stays unclassified
-# (= new). Ids: F4/F12 are DESIGN.md section 4; F21.. were found by this check.
+# (= new). Ids: F4 (C05's req_dz_floors_to_zero), F12c (C17's check_spacergrid
+# unit conversion) and F51 (C05's core_length_from_max_boundary) are shared
+# with other checks; F18nn were found by this check.
 
 _NONRUN = ('non_progress', 'nonfinite')
 
@@ -2097,27 +2109,27 @@ def _rules():
         R.append((fid, fn))
 
     # --- valid inputs (Part A)
-    rule('F12', lambda k, o, w: k.get('variant') ==
+    rule('F12c', lambda k, o, w: k.get('variant') ==
          'opt:grid_corr_default_solidity' and o == 'exception:ValueError'
          and w == 'utils.py:_preprocess_units')
-    rule('F33', lambda k, o, w: k.get('variant') == 'opt:dummy_pin'
+    rule('F1812', lambda k, o, w: k.get('variant') == 'opt:dummy_pin'
          and o == 'exception:KeyError'
          and w == 'read_input.py:check_dummy_pin')
-    rule('F34', lambda k, o, w: k.get('variant') ==
+    rule('F1813', lambda k, o, w: k.get('variant') ==
          'opt:grid_corr_non_CT_flowsplit' and o == 'exception:TypeError'
          and w == 'region_rodded.py:_init_static_correlated_params')
-    rule('F32', lambda k, o, w: (k.get('variant') ==
+    rule('F1811', lambda k, o, w: (k.get('variant') ==
                                  'opt:bypass_gap_loss_coeff'
                                  or k.get('key') ==
                                  'Assembly/bypass_gap_loss_coeff')
          and o == 'exception:NotImplementedError'
          and w == 'region_rodded.py:_setup_flowrate')
-    rule('F38', lambda k, o, w: o == 'exception:TypeError'
+    rule('F1817', lambda k, o, w: o == 'exception:TypeError'
          and w == 'reactor.py:_setup_asm_axial_mesh_req'
          and (k.get('part') == 'A'
               or k.get('mutator') == 'AxialRegion/vf_coolant=tiny'))
     # --- literals that are not numbers
-    rule('F23', lambda k, o, w: k.get('fault') in (
+    rule('F1803', lambda k, o, w: k.get('fault') in (
         'nan', 'inf', 'neg_inf', 'nan literal', 'inf literal'))
     # --- step requirement not positive
     rule('F4', lambda k, o, w: k.get('mutator') in (
@@ -2126,49 +2138,49 @@ def _rules():
         'Assembly/wire_pitch=tiny', 'AxialRegion/vf_coolant=tiny',
         'Setup/axial_mesh_size=zero', 'Setup/axial_mesh_size=tiny')
         and _bad(o, 'non_progress'))
-    rule('F21', lambda k, o, w: k.get('mutator') == 'Assembly/wire_pitch=zero'
+    rule('F1801', lambda k, o, w: k.get('mutator') == 'Assembly/wire_pitch=zero'
          and o == 'exception:ZeroDivisionError')
-    rule('F22', lambda k, o, w: k.get('mutator') == 'SpacerGrid/loss_coeff=zero'
+    rule('F1802', lambda k, o, w: k.get('mutator') == 'SpacerGrid/loss_coeff=zero'
          and o == 'exception:AssertionError'
          and w == 'region_rodded.py:_setup_spacer_grid')
-    rule('F24', lambda k, o, w: k.get('mutator') in (
+    rule('F1804', lambda k, o, w: k.get('mutator') in (
         'power_csv:nonnumeric_token', 'power_csv:row_too_long',
         'power_csv:row_too_short', 'power_csv:empty_field',
         'power_csv:header_line', 'power_csv:empty_file',
         'power_csv:unknown_component_id')
         and o.startswith('exception:') and (w or '').startswith('power.py:'))
-    rule('F25', lambda k, o, w: k.get('mutator') == 'power_csv:item_duplicated'
+    rule('F1805', lambda k, o, w: k.get('mutator') == 'power_csv:item_duplicated'
          and (o == 'ran' or (o == 'exception:ValueError'
                              and w == 'power.py:_from_file')))
-    rule('F26', lambda k, o, w: k.get('mutator') == 'power_csv:z_too_long'
+    rule('F51', lambda k, o, w: k.get('mutator') == 'power_csv:z_too_long'
          and o == 'ran')
-    rule('F27', lambda k, o, w: k.get('mutator') == 'power_csv:z_cell_inverted'
+    rule('F1806', lambda k, o, w: k.get('mutator') == 'power_csv:z_cell_inverted'
          and o == 'ran')
-    rule('F28', lambda k, o, w: k.get('mutator') in (
+    rule('F1807', lambda k, o, w: k.get('mutator') in (
         'AxialRegion/z_hi=zero', 'region_zero_height:upper_at_top')
         and o == 'ran')
-    rule('F29', lambda k, o, w: (k.get('mutator') ==
+    rule('F1808', lambda k, o, w: (k.get('mutator') ==
                                  'region_overlap:across_bundle'
                                  and o == 'ran')
          or (k.get('mutator') in ('region_all_unrodded',
                                   'AxialRegion/z_lo=zero')
              and o == 'exception:IndexError'
              and w == 'read_input.py:_get_rodded_reg_bnds'))
-    rule('F30', lambda k, o, w: (k.get('mutator') == 'duct_overlap'
+    rule('F1809', lambda k, o, w: (k.get('mutator') == 'duct_overlap'
                                  and o == 'ran')
          or (k.get('mutator') == 'duct_zero_bypass_gap'
              and _bad(o, *_NONRUN)))
-    rule('F31', lambda k, o, w: k.get('mutator') == 'name:region_model'
+    rule('F1810', lambda k, o, w: k.get('mutator') == 'name:region_model'
          and o == 'exception:NotImplementedError'
          and w == 'region_unrodded.py:make_axialregion')
-    rule('F35', lambda k, o, w: k.get('mutator') == 'core:bypass_fraction=one'
+    rule('F1814', lambda k, o, w: k.get('mutator') == 'core:bypass_fraction=one'
          and o == 'exception:ZeroDivisionError'
          and w == 'reactor.py:_calculate_total_fr')
-    rule('F36', lambda k, o, w: k.get('mutator') in (
+    rule('F1815', lambda k, o, w: k.get('mutator') in (
         'assembly:bypass_gap_flow_fraction=one',
         'assembly:bypass_gap_flow_fraction=above_one')
         and _bad(o, *_NONRUN))
-    rule('F37', lambda k, o, w: k.get('mutator') in (
+    rule('F1816', lambda k, o, w: k.get('mutator') in (
         'assignment:outlet_below_inlet', 'assignment:outlet_equals_inlet',
         'assignment:temperature_bc_with_zero_power')
         and (_bad(o, *_NONRUN)
@@ -2176,22 +2188,25 @@ def _rules():
                  and w == 'utils.py:Q_equals_mCdT')
              or (o == 'exception:TypeError'
                  and w == 'reactor.py:_setup_asm_axial_mesh_req')))
-    rule('F39', lambda k, o, w: k.get('mutator') in (
+    rule('F1818', lambda k, o, w: k.get('mutator') in (
         'assignment:nonnumeric_ring', 'assignment:nonnumeric_bc')
         and o == 'exception:ValueError'
         and w == 'read_input.py:_split_positions')
-    rule('F40', lambda k, o, w: k.get('mutator') ==
+    rule('F1819', lambda k, o, w: k.get('mutator') ==
          'Materials/coolant/thermal_conductivity=zero'
          and o == 'exception:ZeroDivisionError')
-    rule('F41', lambda k, o, w: k.get('mutator') ==
+    rule('F1820', lambda k, o, w: k.get('mutator') ==
          'power_csv:assembly_without_power' and o == 'exception:KeyError'
          and w == 'reactor.py:_setup_asm_power')
-    rule('F42', lambda k, o, w: k.get('mutator') == 'pitch_eq_diameter'
+    rule('F1821', lambda k, o, w: k.get('mutator') == 'pitch_eq_diameter'
          and _bad(o, *_NONRUN))
-    rule('F43', lambda k, o, w: k.get('mutator') == 'AxialRegion/vf_coolant=zero'
+    rule('F1822', lambda k, o, w: k.get('mutator') == 'AxialRegion/vf_coolant=zero'
          and (_bad(o, *_NONRUN)
              or (o == 'exception:TypeError'
                  and w == 'reactor.py:_setup_asm_axial_mesh_req')))
+    # any other accepted input (valid ones included) whose step requirement
+    # is not positive: same missing guard in the mesh construction
+    rule('F4', lambda k, o, w: o == 'non_progress:dz<=0')
     return R
 
 
